@@ -258,12 +258,13 @@ class TupT(Ty):
 class ObjT(Ty):
     """reference to an object of a class; fields live in the heap (or are constant functions)"""
 
-    def __init__(self, cls):
+    def __init__(self, cls, root=None):
         self.cls = cls
+        self.root = root or cls          # classes of one hierarchy share the sort of their root
         self.name = "Obj_" + cls
 
     def sort(self):
-        return _memo(("obj", self.name), lambda: z3.DeclareSort(self.name))
+        return _memo(("obj", "Obj_" + self.root), lambda: z3.DeclareSort("Obj_" + self.root))
 
 
 class DataT(Ty):
